@@ -8,6 +8,7 @@ import (
 	"go/constant"
 	"go/token"
 	"go/types"
+	"regexp"
 	"sort"
 	"strings"
 
@@ -188,7 +189,11 @@ func (P *Program) BuildModel() (*Model, error) {
 		sc := cp.Types.Scope()
 		for _, name := range sc.Names() {
 			if c, ok := sc.Lookup(name).(*types.Const); ok && c.Val().Kind() == constant.String {
-				M.CodeConsts[name] = constant.StringVal(c.Val())
+				// the code table: exported string constants (codes and category prefixes), and anything that looks
+				// like a code; private helper constants (a base URL, a format) are not codes
+				if v := constant.StringVal(c.Val()); c.Exported() || codeShape.MatchString(v) {
+					M.CodeConsts[name] = v
+				}
 			}
 		}
 	}
@@ -333,3 +338,5 @@ func (M *Model) AnalyzerByVar(v *types.Var) *AnalyzerInfo {
 	}
 	return nil
 }
+
+var codeShape = regexp.MustCompile(`^[A-Z]+[0-9]{2}$`)
